@@ -22,9 +22,23 @@ Lemma store_append_cases st h :
   (store_append st h = Some h /\ (st = None \/ h_height h = hgt st + 1)).
 Proof.
   unfold store_append. destruct st as [sh|]; [|right; auto].
-  destruct (N.leb_spec (h_height sh) (h_height h)); cbn [andb]; [|left; reflexivity].
+  destruct (N.leb_spec (h_height sh) (h_height h)); [|left; reflexivity].
+  destruct (same_head sh h); [left; reflexivity|].
   destruct (N.eqb_spec (h_height h) (wrap64 (h_height sh + 1))); [|left; reflexivity].
   right. split; [reflexivity|]. right. cbn. apply wrap_adj; assumption.
+Qed.
+
+(** re-delivering the current store head moves nothing and raises no error *)
+Lemma store_append_same h : store_append (Some h) h = Some h /\ store_append_err (Some h) h = false.
+Proof.
+  unfold store_append, store_append_err, same_head. rewrite N.leb_refl, !N.eqb_refl. split; reflexivity.
+Qed.
+
+(** setLocalHead with the header that already IS the store head: a no-op, whatever is pending *)
+Lemma slh_redeliver s h : s_store s = Some h -> set_local_head s h = s /\ store_append_err (s_store s) h = false.
+Proof.
+  intros Hs. unfold set_local_head. rewrite Hs. destruct (store_append_same h) as [-> ->].
+  rewrite N.leb_refl. split; [|reflexivity]. destruct s; cbn in *. rewrite Hs. reflexivity.
 Qed.
 
 Lemma store_append_mono st h : hgt st <= hgt (store_append st h).
@@ -33,7 +47,7 @@ Proof.
 Qed.
 
 Lemma store_append_some st h : exists x, store_append st h = Some x.
-Proof. unfold store_append. destruct st; [destruct (_ && _)|]; eauto. Qed.
+Proof. destruct (store_append_cases st h) as [H|[H _]]; rewrite H; [|eauto]. destruct st; [eauto|]. cbn in H. discriminate. Qed.
 
 Lemma slh_now s h : s_now (set_local_head s h) = s_now s.
 Proof. unfold set_local_head. destruct (store_append _ _); [destruct (_ <=? _)|]; reflexivity. Qed.
@@ -1459,8 +1473,7 @@ Proof.
       destruct (N.leb_spec (h_height h) (h_height sh)); [lia|]. cbn. rewrite N.leb_refl. reflexivity.
   - rewrite N.leb_refl. cbn [s_store s_pend s_now].
     assert (Ha : store_append (Some h) h = Some h).
-    { unfold store_append. rewrite N.leb_refl. cbn.
-      destruct (N.eqb_spec (h_height h) (wrap64 (h_height h + 1))); reflexivity. }
+    { apply store_append_same. }
     rewrite Ha, N.leb_refl. reflexivity.
 Qed.
 
@@ -1505,7 +1518,8 @@ Proof.
   destruct (s_store s) as [sh|] eqn:Hs.
   - destruct Ht as [Hn|Hle]; [discriminate|]. cbn in Hle.
     assert (He : store_append (Some sh) th = Some sh).
-    { unfold store_append. destruct (N.leb_spec (h_height sh) (h_height th)); cbn; [|reflexivity].
+    { unfold store_append. destruct (N.leb_spec (h_height sh) (h_height th)); [|reflexivity].
+      destruct (same_head sh th); [reflexivity|].
       destruct (N.eqb_spec (h_height th) (wrap64 (h_height sh + 1))) as [E|]; [|reflexivity].
       apply wrap_adj in E; [lia|assumption]. }
     rewrite He. exact Hwf.
